@@ -1,5 +1,6 @@
 (** C20 — transient API failures and conflicts delay work but never lose or corrupt it. *)
 From Furiko Require Import Cron.Recon JobConfig.Status Queue.World Proofs.ReconP Proofs.StatusP Proofs.FaultsP.
+From Furiko Require Job.Core Job.Sync Job.World Proofs.HistoryP Proofs.CacheP.
 Open Scope list_scope.
 Open Scope Z_scope.
 
@@ -89,10 +90,59 @@ Theorem c20_queue_failed_start_changes_nothing :
 Proof. exact queue_failed_start_changes_nothing. Qed.
 Print Assumptions c20_queue_failed_start_changes_nothing.
 
+(** job controller, safety along the way: the histories of the one-Job world include injected
+    failures of every write (Pod create / delete, Job update, status update, Job delete) and
+    resourceVersion conflicts, at any point and in any number; whatever fails, no recorded task
+    is ever dropped, a start time never changes, a deleted Job stays deleted, and a
+    finalizer-protected Job leaves the API only after a pass saw none of its tasks *)
+Theorem c20_job_world_safe_whatever_fails :
+  forall cfg j0 now ops1 ops2,
+    let w1 := HistoryP.jrun_world cfg (Job.World.init_jworld j0 now) ops1 in
+    let w2 := HistoryP.jrun_world cfg w1 ops2 in
+    (forall a1 a2, Job.Sync.api_job w1 = Some a1 -> Job.Sync.api_job w2 = Some a2 ->
+       (forall n, In n (map Job.Core.tr_name (Job.Core.j_tasks a1)) -> In n (map Job.Core.tr_name (Job.Core.j_tasks a2))) /\
+       (forall t, Job.Core.j_start a1 = Some t -> Job.Core.j_start a2 = Some t)) /\
+    (Job.Sync.api_job w1 = None -> Job.Sync.api_job w2 = None) /\
+    (forall o a, Job.Sync.api_job w1 = Some a -> Job.Core.j_finalizer a = true ->
+       Job.Sync.api_job (fst (fst (fst (Job.World.jstep cfg w1 o)))) = None ->
+       o = Job.World.JSync /\ forall r, In r (Job.Core.j_tasks a) -> Job.Sync.find_pod (Job.Core.tr_name r) (Job.Sync.cache_pods w1) = None).
+Proof.
+  intros cfg j0 now ops1 ops2 w1 w2.
+  destruct (HistoryP.recorded_forever cfg j0 now ops1 ops2) as [R1 R2].
+  pose proof (HistoryP.start_time_forever cfg j0 now ops1 ops2) as S1.
+  split; [|split].
+  - intros a1 a2 E1 E2. split; [apply (R1 a1 a2 E1 E2)|intros t; apply (S1 a1 a2 t E1 E2)].
+  - exact R2.
+  - intros o a Ea Hf Hn.
+    destruct (CacheP.job_removed_after_tasks cfg j0 now ops1 o a Ea Hf Hn) as (H1 & _ & _ & H4 & _). auto.
+Qed.
+Print Assumptions c20_job_world_safe_whatever_fails.
+
+(** job controller, convergence of the clean-up: any finite burst of failed finalizer writes
+    only delays the removal of a deleted Job whose tasks are gone - each failed pass leaves the
+    world as it was (minus the failure), the first pass after the burst removes the Job *)
+Theorem c20_job_deletion_retry_converges :
+  forall cfg n w j d,
+    Job.Sync.cache_job w = Some j -> Job.Sync.api_job w = Some j -> Job.Sync.cache_rv w = Job.Sync.api_rv w ->
+    Job.Core.j_deletion j = Some d -> Job.Core.j_finalizer j = true -> Job.Sync.faults w = repeat Job.Sync.FUpdateJob n ->
+    (forall r, In r (Job.Core.j_tasks j) -> Job.Sync.find_pod (Job.Core.tr_name r) (Job.Sync.cache_pods w) = None) ->
+    CacheP.iter_pass cfg n w = Job.Sync.set_faults w [] /\ Job.Sync.api_job (CacheP.iter_pass cfg (S n) w) = None.
+Proof. exact CacheP.deletion_retry_converges. Qed.
+Print Assumptions c20_job_deletion_retry_converges.
+
 (** Non-vacuity: three server errors, then the Job is created exactly once *)
 Open Scope string_scope.
 Example c20_nonvacuous :
   let jc := mkRJC "jc" "u" false 1 0 None None in
   let w := mkRW [jc] [] [] [] 0 (Some 20) ["jc.1700000000"] [] (repeat RFServer 3) in
   rw_api (iter 4 r_attempt w) = [new_job jc 1700000000] /\ rw_api (iter 3 r_attempt w) = [].
+Proof. vm_compute. split; reflexivity. Qed.
+
+Example c20_job_nonvacuous :
+  let j := Job.Core.mkJob ["aaaaaa"] false Job.Core.AllSuccessful 1 0 false false None false None None false true (Some 150) (Some 10)
+             [Job.Core.mkRef "j-aaaaaa-0" "aaaaaa" 0 100 (Some 102) (Some 160) (Job.Core.mkSt Job.Core.TTerminated Job.Core.RKilled Job.Core.ReJobDeleted) None]
+             1 0 None (Job.Core.CFinished Job.Core.JKilled (Some 160) (Some 100) (Some 102)) Job.Core.PhKilled Job.Core.SFinished in
+  let w := Job.Sync.mkJW (Some j) 7 [] [] (Some j) 7 [] [] [] 200 [Job.Sync.FUpdateJob; Job.Sync.FUpdateJob] in
+  let cfg := Job.Sync.mkCfg (Some 900) (Some 900) (Some 3600) in
+  Job.Sync.api_job (CacheP.iter_pass cfg 2 w) = Some j /\ Job.Sync.api_job (CacheP.iter_pass cfg 3 w) = None.
 Proof. vm_compute. split; reflexivity. Qed.
